@@ -2,11 +2,11 @@ package core
 
 import (
 	"fmt"
-	"os"
-	"strings"
 	"go/token"
 	"go/types"
+	"os"
 	"sort"
+	"strings"
 
 	"golang.org/x/tools/go/ssa"
 )
@@ -21,7 +21,7 @@ import (
 // FreshUse is a use of a guarded object at an instruction.
 type FreshUse struct {
 	Key  string // canonical access path of the guarded object ("" = untracked)
-	What string    // e.g. "typedArray.setRaw"
+	What string // e.g. "typedArray.setRaw"
 }
 
 // FreshSpec configures one instance of the analysis.
@@ -83,10 +83,10 @@ type fsummary struct {
 }
 
 type fstate struct {
-	fresh    map[string]string       // key → how established
+	fresh    map[string]string        // key → how established
 	pend     map[ssa.Value][]pendFact // bool value → facts
 	lastKill string
-	clean    bool // no kill since function entry
+	clean    bool            // no kill since function entry
 	local    map[string]bool // keys of brand-new objects that have not escaped
 }
 
@@ -502,7 +502,6 @@ func (p *Prog) freshFunc(spec *FreshSpec, f *ssa.Function, sums map[*ssa.Functio
 	}
 	return sum
 }
-
 
 // applyCond refines the state on a branch edge.
 func applyCond(st *fstate, cond ssa.Value, taken bool) {
